@@ -1645,6 +1645,19 @@ class SimulationRunner:
 
     def _simulate_serially_single_param_variation(
             self, param_variation_index: Union[int, str]) -> None:
+        # Reject the call before anything is cleared: a call that raises
+        # must leave the results of a previous simulation untouched.
+        #
+        # Maybe even though param_variation_index is a valid integer it
+        # was passed as a string. Let's try to convert whatever we have
+        # to an integer.
+        param_variation_index = int(param_variation_index)
+
+        if self._simulation_results_saver.results_base_filename is None:
+            err_msg = ('The results filename must be set before'
+                       ' calling the "simulate" method.')
+            raise RuntimeError(err_msg)
+
         # xxxxxxxxxx Common part xxxxxxxxxxxxxxxxxxxxxxxxxxxxxxxxxxxxxxxxxx
         self._simulate_common_setup()
 
@@ -1652,20 +1665,10 @@ class SimulationRunner:
         num_variations = self.params.get_num_unpacked_variations()
         # xxxxxxxxxxxxxxxxxxxxxxxxxxxxxxxxxxxxxxxxxxxxxxxxxxxxxxxxxxxxxxxxx
 
-        # Maybe even though param_variation_index is a valid integer it
-        # was passed as a string. Let's try to convert whatever we have
-        # to an integer.
-        param_variation_index = int(param_variation_index)
-
         # Tell the SimulationTracking that serial simulation will be done
 
         self._simulation_tracking.set_serial_tracking(num_variations,
                                                       param_variation_index)
-
-        if self._simulation_results_saver.results_base_filename is None:
-            err_msg = ('The results filename must be set before'
-                       ' calling the "simulate" method.')
-            raise RuntimeError(err_msg)
 
         param_comb_list = self.params.get_unpacked_params_list()
 
